@@ -402,6 +402,16 @@ Example uidl_roundtrip_example :
 Proof. split; vm_compute; reflexivity. Qed.
 
 (* ---------------------------------------------------------- subscriptions *)
+Lemma rstrip_nl_names l : forallb name_char l = true -> rstrip_nl (l ++ [10]) = l.
+Proof.
+  induction l as [|c l IH]; intro H.
+  - reflexivity.
+  - cbn [forallb] in H. apply andb_true_iff in H as [Hc Hl].
+    cbn [app]. unfold rstrip_nl in *. cbn [fold_right]. rewrite (IH Hl).
+    destruct l; [|reflexivity]. apply name_char_range in Hc.
+    destruct (N.eqb_spec c 13); [lia|]. destruct (N.eqb_spec c 10); [lia|]. reflexivity.
+Qed.
+
 Lemma add_name_fresh n l : existsb (bytes_eqb n) l = false -> add_name n l = l ++ [n].
 Proof.
   induction l as [|x l IH]; intro H; [reflexivity|].
@@ -433,12 +443,12 @@ Proof.
   rewrite (lines_unl_flat (fun n => n)).
   2:{ intros n Hn. apply names_no_crlf. exact (forallb_In _ _ Hc n Hn). }
   assert (G : forall acc, nodup_names (acc ++ names) = true ->
-     fold_left (fun a l => add_name (rstrip l) a) (map (fun n => n ++ [10]) names) acc
+     fold_left (fun a l => add_name (rstrip_nl l) a) (map (fun n => n ++ [10]) names) acc
      = acc ++ names).
   { clear Hnd. induction names as [|n ns IH]; intros acc Hn.
     - cbn. rewrite app_nil_r. reflexivity.
     - cbn [forallb] in Hc. apply andb_true_iff in Hc as [Hn1 Hns].
-      cbn [map fold_left]. rewrite (rstrip_names _ Hn1).
+      cbn [map fold_left]. rewrite (rstrip_nl_names _ Hn1).
       rewrite (add_name_fresh n acc (nodup_names_snoc _ _ _ Hn)).
       rewrite (IH Hns); [rewrite <- app_assoc; reflexivity|].
       rewrite <- app_assoc. exact Hn. }
